@@ -36,5 +36,52 @@ def main():
         print(text)
 
 
-if __name__ == '__main__':
+if __name__ == '__main__' and '--args' not in sys.argv:
     main()
+
+
+def arg_report():
+    """merged argument kinds (build/cov/<id>.args, written when VERIF_ARGCOV=1): parameters that saw a single kind"""
+    import glob, inspect
+    merged = {}
+    for f in sorted(glob.glob(os.path.join(ROOT, 'build', 'cov', '*.args'))):
+        for q, d in json.load(open(f)).items():
+            for p, kinds in d.items():
+                merged.setdefault(q, {}).setdefault(p, set()).update(kinds)
+    out = ['# Argument kinds seen per parameter (merged over the quick runs with VERIF_ARGCOV=1)', '']
+    sys.path.insert(0, os.environ.get('VERIF_SRC', '/repo/src'))
+    import ansi_string.ansi_string as m1, ansi_string.ansi_format as m2, ansi_string.ansi_parsing as m3
+    public = []
+    for mod in (m1, m2, m3):
+        for cname, cls in inspect.getmembers(mod, inspect.isclass):
+            if cls.__module__ != mod.__name__:
+                continue
+            for n, fn in cls.__dict__.items():
+                f = fn.__func__ if isinstance(fn, (staticmethod, classmethod)) else (fn.fget if isinstance(fn, property) else fn)
+                if inspect.isfunction(f):
+                    public.append(f.__qualname__)
+        for n, fn in inspect.getmembers(mod, inspect.isfunction):
+            if fn.__module__ == mod.__name__:
+                public.append(fn.__qualname__)
+    never = sorted(q for q in set(public) if q not in merged)
+    out.append('## functions never called: %d' % len(never))
+    out += ['    ' + q for q in never]
+    out.append('')
+    out.append('## parameters that saw a single kind of value')
+    for q in sorted(merged):
+        for p, kinds in merged[q].items():
+            if p in ('self', 'cls') or len(kinds) > 1:
+                continue
+            out.append('    %-55s %-20s %s' % (q, p, sorted(kinds)))
+    out.append('')
+    out.append('## all')
+    for q in sorted(merged):
+        out.append('    ' + q)
+        for p, kinds in merged[q].items():
+            if p not in ('self', 'cls'):
+                out.append('        %-22s %s' % (p, ', '.join(sorted(kinds))))
+    return '\n'.join(out)
+
+
+if '--args' in sys.argv:
+    open(os.path.join(ROOT, 'notes', 'argument_kinds.md'), 'w').write(arg_report() + '\n')
